@@ -53,6 +53,11 @@ pub struct Schedule {
     pub park2: Option<(String, usize, u64, usize)>,
     /// STOREs issued while parked
     pub extra: usize,
+    /// after everything has completed: one more rotation (capacity STOREs), optionally held at a gate
+    #[serde(default)]
+    pub tail: bool,
+    #[serde(default)]
+    pub tail_park: Option<(String, usize, u64, usize)>,
 }
 
 struct Built {
@@ -61,6 +66,8 @@ struct Built {
     observes: Vec<(usize, Vec<Ev>, &'static str)>,
     /// events stored by the triggering rotation (op index range)
     trigger_op: usize,
+    /// first op of the tail rotation (usize::MAX without a tail)
+    tail_op: usize,
 }
 
 fn build(s: &Schedule) -> Built {
@@ -124,7 +131,28 @@ fn build(s: &Schedule) -> Built {
     ops.push(Op::Barrier);
     observes.push((ops.len(), acked.clone(), "final"));
     ops.push(Op::Observe { queries: read_suite(&acked) });
-    Built { ops, observes, trigger_op }
+    let mut tail_op = usize::MAX;
+    if s.tail {
+        if let Some(p) = &s.tail_park {
+            ops.push(Op::Park { gate: p.0.clone(), shard: p.1, seg: Some(p.2), nth: p.3 });
+        }
+        tail_op = ops.len();
+        for _ in 0..cap {
+            let e = ev(k);
+            k += 1;
+            ops.push(Op::Cmd { text: e.store_cmd() });
+            acked.push(e);
+        }
+        observes.push((ops.len(), acked.clone(), if s.tail_park.is_some() { "tail rotation held" } else { "tail rotation done" }));
+        ops.push(Op::Observe { queries: read_suite(&acked) });
+        if s.tail_park.is_some() {
+            ops.push(Op::Resume);
+            ops.push(Op::Barrier);
+            observes.push((ops.len(), acked.clone(), "tail rotation released"));
+            ops.push(Op::Observe { queries: read_suite(&acked) });
+        }
+    }
+    Built { ops, observes, trigger_op, tail_op }
 }
 
 fn run(dir: &std::path::Path, s: &Schedule) -> Result<(Built, JobResult), String> {
@@ -336,8 +364,25 @@ pub fn check(tier: &str) -> i32 {
     let mut bases: Vec<Schedule> = Vec::new();
     for cfg in &cfgs {
         for (pf, pc) in &prefixes {
-            bases.push(Schedule { cfg: cfg.clone(), prefix_fills: *pf, prefix_compact: *pc, park1: None, park2: None, extra: 2 * cfg.capacity() });
+            bases.push(Schedule { cfg: cfg.clone(), prefix_fills: *pf, prefix_compact: *pc, park1: None, park2: None, extra: 2 * cfg.capacity(), tail: false, tail_park: None });
         }
+    }
+    // released passive buffers are pruned on rotations whose segment id is a multiple of
+    // max_inflight_passives / 2: histories in which the rotation under test is such a rotation and
+    // two or four earlier flushes have completed (small cap so that short prefixes reach it)
+    let small_cap = SysConfig { fill_factor: 1, event_per_zone: 2, max_inflight_passives: 4, ..Default::default() };
+    for pf in if tier == "quick" { vec![2usize, 4] } else { vec![2usize, 3, 4, 6] } {
+        bases.push(Schedule { cfg: small_cap.clone(), prefix_fills: pf, prefix_compact: false, park1: None, park2: None, extra: 2 * small_cap.capacity(), tail: false, tail_park: None });
+    }
+    if tier != "quick" {
+        for pf in [4usize, 8] {
+            bases.push(Schedule { cfg: cfgs[0].clone(), prefix_fills: pf, prefix_compact: false, park1: None, park2: None, extra: 2 * cfgs[0].capacity(), tail: false, tail_park: None });
+        }
+    }
+    // tail rotation: after the rotation under test and the 1 or 2 rotations queued behind it have
+    // all completed back to back (1, 2 or 3 released buffers at once), one more rotation follows
+    for extra_rot in if tier == "quick" { vec![1usize, 2] } else { vec![0usize, 1, 2, 3] } {
+        bases.push(Schedule { cfg: cfgs[0].clone(), prefix_fills: 0, prefix_compact: false, park1: None, park2: None, extra: extra_rot * cfgs[0].capacity(), tail: true, tail_park: None });
     }
     let rec = par_map(&bases, threads(), |i, s| run(&scratch.dir.join(format!("r{i}")), s));
     let mut schedules: Vec<Schedule> = Vec::new();
@@ -357,13 +402,27 @@ pub fn check(tier: &str) -> i32 {
                 // gates hit from the triggering STORE on (rotations under test and the ones queued behind it)
                 let mut seen: BTreeMap<(String, usize, u64), usize> = BTreeMap::new();
                 let mut hits: Vec<(String, usize, u64, usize)> = Vec::new();
-                for g in res.gates.iter().filter(|g| g.op >= b.trigger_op && (g.gate.starts_with("flush.") || g.gate.starts_with("zone."))) {
+                for g in res.gates.iter().filter(|g| g.op >= b.trigger_op && g.op < b.tail_op && (g.gate.starts_with("flush.") || g.gate.starts_with("zone."))) {
                     let n = seen.entry((g.gate.clone(), g.shard, g.seg)).or_insert(0);
                     hits.push((g.gate.clone(), g.shard, g.seg, *n));
                     *n += 1;
                 }
                 // the first rotation under test = the first flush.queued at/after the trigger
                 let first = hits.iter().find(|h| h.0 == "flush.queued").cloned();
+                if bases[i].tail {
+                    // hold the first rotation at its first gate (so that the rotations queue up back to
+                    // back), release, then hold the tail rotation at each of its gates
+                    let mut seen_t: BTreeMap<(String, usize, u64), usize> = BTreeMap::new();
+                    for g in res.gates.iter().filter(|g| g.op >= b.tail_op && (g.gate.starts_with("flush.") || g.gate.starts_with("zone."))) {
+                        let n = seen_t.entry((g.gate.clone(), g.shard, g.seg)).or_insert(0);
+                        if let Some(f) = &first {
+                            gate_points += 1;
+                            schedules.push(Schedule { park1: Some(f.clone()), tail_park: Some((g.gate.clone(), g.shard, g.seg, *n)), ..bases[i].clone() });
+                        }
+                        *n += 1;
+                    }
+                    continue;
+                }
                 for h in &hits {
                     let is_first_rotation = first.as_ref().map_or(false, |f| f.1 == h.1 && f.2 == h.2);
                     if is_first_rotation {
